@@ -384,6 +384,8 @@ class Flattener:
         for n in ast.walk(gnode):
             if isinstance(n, (ast.Await, ast.Global, ast.Nonlocal)) or (isinstance(n, (ast.FunctionDef, ast.AsyncFunctionDef, ast.ClassDef)) and n is not gnode):
                 raise CannotInline("helper contains %s" % type(n).__name__)
+            if isinstance(n, ast.Call) and isinstance(n.func, ast.Name) and n.func.id in ("eval", "exec", "compile", "locals", "globals", "vars"):
+                raise CannotInline("helper evaluates code / reads its own namespace")  # (its names are part of its meaning)
             if generator and isinstance(n, ast.Return) and n.value is not None:
                 raise CannotInline("generator returns a value")
             if generator and isinstance(n, ast.Yield) and not (isinstance(getattr(n, "_parent", None), ast.Expr)):
@@ -787,6 +789,7 @@ class Flattener:
             new.body = self._flatten_body(fn, new.body, _all_names(node))
             self._fuse_late(fn, new)
             _scalarize_results(new)
+            _scalarize_records(self.m, fn, new)
             ast.fix_missing_locations(new)
         finally:
             self._active.pop()
@@ -796,6 +799,66 @@ class Flattener:
         new._parent = getattr(node, "_parent", None)
         self._done[fn.qual] = new
         return new
+
+
+def _scalarize_records(model, fn, fnode):
+    """`r = Record(a, b)` ... `r.x` ... `r.y`  ->  `a` ... `b` for a local bound once to a plain record (a private value
+    class / NamedTuple that only carries values, see terms.Resolver._record_fields) whose arguments are plain names that
+    are not re-bound after the construction, when every use of the local is such a field read."""
+    from .terms import Resolver
+
+    order = {}
+    stack = [fnode]
+    while stack:  # pre-order (program order), unlike ast.walk
+        n = stack.pop()
+        order[id(n)] = len(order)
+        stack.extend(reversed(list(ast.iter_child_nodes(n))))
+    cands = {}
+    stores = {}
+    for n in ast.walk(fnode):
+        if isinstance(n, ast.Name) and isinstance(n.ctx, (ast.Store, ast.Del)):
+            stores.setdefault(n.id, []).append(n)
+    res = None
+    for st in ast.walk(fnode):
+        if isinstance(st, ast.Assign) and len(st.targets) == 1 and isinstance(st.targets[0], ast.Name) and isinstance(st.value, ast.Call) \
+                and isinstance(st.value.func, ast.Name) and st.value.func.id in model.classes and len(stores.get(st.targets[0].id, [])) == 1 \
+                and st.targets[0].id not in [a.arg for a in fnode.args.args + fnode.args.kwonlyargs + fnode.args.posonlyargs]:
+            if res is None:
+                res = Resolver(model, fn, flow=False, inline=False)
+            fields = res._record_fields(st.value.func.id)
+            if fields is None or any(isinstance(a, ast.Starred) for a in st.value.args) or any(k.arg is None for k in st.value.keywords):
+                continue
+            byfield = {}
+            for f, i in fields.items():
+                if i < len(st.value.args):
+                    byfield[f] = st.value.args[i]
+            for k in st.value.keywords:
+                byfield[k.arg] = k.value
+            if set(byfield) != set(fields):
+                continue
+            ok = True
+            for a in byfield.values():
+                if isinstance(a, ast.Constant):
+                    continue
+                if isinstance(a, ast.Name) and not any(order.get(id(x), 0) > order.get(id(st), 0) for x in stores.get(a.id, [])):
+                    continue
+                ok = False
+            if ok:
+                cands[st.targets[0].id] = (st, byfield)
+    if not cands:
+        return
+    parent = {}
+    for p in ast.walk(fnode):
+        for c in ast.iter_child_nodes(p):
+            parent[id(c)] = p
+    for name, (st, byfield) in list(cands.items()):
+        uses = [n for n in ast.walk(fnode) if isinstance(n, ast.Name) and n.id == name and isinstance(n.ctx, ast.Load)]
+        if not uses or not all(isinstance(parent.get(id(u)), ast.Attribute) and parent[id(u)].value is u and isinstance(parent[id(u)].ctx, ast.Load) and parent[id(u)].attr in byfield
+                               and order.get(id(u), 0) > order.get(id(st), 0) for u in uses):
+            continue
+        for u in uses:
+            at = parent[id(u)]
+            _replace(fnode, at, _clone(byfield[at.attr]))
 
 
 def _scalarize_results(fnode):
@@ -1334,6 +1397,24 @@ def _bool_entries(table, sl):
     return E, out[0], out[1]
 
 
+def _without_continue(body):
+    """The loop body with its `continue`s expressed as conditions (`if c: continue; REST` -> `if not c: REST`), or
+    None when a continue sits anywhere else than as the only statement of a top-level `if` without else."""
+    out = []
+    for i, st in enumerate(body):
+        if isinstance(st, ast.If) and len(st.body) == 1 and isinstance(st.body[0], ast.Continue) and not st.orelse:
+            rest = _without_continue(body[i + 1:])
+            if rest is None:
+                return None
+            if rest:
+                out.append(ast.copy_location(ast.If(test=ast.copy_location(ast.UnaryOp(op=ast.Not(), operand=st.test), st), body=rest, orelse=[]), st))
+            return out
+        if any(isinstance(x, ast.Continue) for x in ast.walk(st) if not isinstance(st, (ast.For, ast.While))):
+            return None
+        out.append(st)
+    return out
+
+
 def _expand_tables_body(model, fn, stmts, budget):
     out = []
     changed = False
@@ -1355,7 +1436,8 @@ def _expand_tables_body(model, fn, stmts, budget):
         # (1) `for a, b, c in ((x1, y1, z1), (x2, y2, z2)): BODY` -> BODY with the row substituted, once per row
         if isinstance(st, ast.For) and not st.orelse and isinstance(st.iter, ast.Tuple) and 1 <= len(st.iter.elts) <= 4 and isinstance(st.target, ast.Tuple) \
                 and all(isinstance(t, ast.Name) for t in st.target.elts) and all(isinstance(r, ast.Tuple) and len(r.elts) == len(st.target.elts) for r in st.iter.elts) \
-                and not _own_breaks(st.body) and not any(isinstance(x, ast.Continue) for b in st.body for x in ast.walk(b)):
+                and not _own_breaks(st.body) and _without_continue(st.body) is not None:
+            st.body = _without_continue(st.body)
             names = [t.id for t in st.target.elts]
             simple = all(isinstance(e, (ast.Name, ast.Constant)) or (isinstance(e, ast.Attribute) and isinstance(e.value, ast.Name)) for r in st.iter.elts for e in r.elts)
             stored = {x.id for b in st.body for x in ast.walk(b) if isinstance(x, ast.Name) and isinstance(x.ctx, (ast.Store, ast.Del))}
